@@ -50,6 +50,8 @@ def install(extra=None, scalars=True):
     for n, m in mods.items():
         if m.__dict__.get("np") is numpy:
             _set(m, "np", arr.NP)
+        if m.__dict__.get("ma") is numpy.ma:
+            _set(m, "ma", arr.MA)
     STUBS.append("np -> symx.arr.NPProxy in every osyris module (array creation returns SymArray)")
     if scalars:
         # not osyris.core.array: it uses `int`/`float` as dtype tags (`result.dtype in (int, float)`)
